@@ -480,6 +480,14 @@ def _():
             return result
 """)
 
+@fix("D40", "fix: a dependency created from PEP 508 text keeps the specifier text, so that a split range is written back with ',' not '||'")
+def _():
+    sub("packages/dependency.py",
+        """            constraint = req.constraint if req.pretty_constraint else "*"
+            dep = Dependency(name, constraint, extras=req.extras)""",
+        """            constraint = req.pretty_constraint if req.pretty_constraint else "*"
+            dep = Dependency(name, constraint, extras=req.extras)""")
+
 def main():
     id_ = sys.argv[1]
     msg, f = FIXES[id_]
